@@ -253,6 +253,7 @@ def radius_rule(ctx, R):
 
 
 def run(ctx):
+    _ownership(ctx)
     ctx.rule('R08.1', 'IoU = I / (A_l + A_r - I) on one and the same intersection of both operands (3 siblings)')
     ctx.rule('R08.2', 'IoU absent exactly when both operands are present and the intersection is 0 (3 siblings)')
     n1, n2 = iou_rules(ctx)
@@ -266,3 +267,10 @@ def run(ctx):
     n = C20.r4(ctx, 'R08.5', ('too_far',))
     n += radius_rule(ctx, 'R08.5')
     ctx.floor('R08.5', n, 4)
+
+
+def _ownership(ctx):
+    """who-may-write rows of rules/ownership.py that concern this property"""
+    import ownership
+    ctx.rule('R08.6', 'who-may-write: state this property depends on is changed only by its owners (rules/ownership.py)')
+    ctx.floor('R08.6', ownership.run(ctx, 'R08.6', 'C08'), 2)
